@@ -42,6 +42,9 @@ type DenseInt16Matrix struct {
 /* constructors
  * -------------------------------------------------------------------------- */
 func NewDenseInt16Matrix(values []int16, rows, cols int) *DenseInt16Matrix {
+  if rows < 0 || cols < 0 || len(values) != rows*cols {
+    panic("NewMatrix(): Matrix dimension does not fit input values!")
+  }
   m := DenseInt16Matrix{}
   m.values = values
   m.rows = rows
